@@ -134,6 +134,7 @@ pub fn site_of(f: &Finding, labels: &[String]) -> String {
 
 /// Execute a supply trace and fold the result into the record. Returns own findings.
 pub fn exec_supply(check: &str, t: &SupplyTrace, scratch: &Scratch, rec: &mut RunRecord, seed: u64, index: u64) -> Vec<Finding> {
+    crate::crash::write_current_supply(t);
     let o = run_supply(t, scratch);
     let j = oracle::judge_supply(t, &o);
     rec.evaluations += 1;
